@@ -26,6 +26,12 @@ func lookupExternal(i *interpreter, fn *ssa.Function, name string) externalFn {
 		}
 		return ext
 	}
+	if ext := atomicExternal(i, fn, name); ext != nil {
+		if i.w != nil {
+			i.w.stubsUsed["sync/atomic (engine intrinsics)"] = true
+		}
+		return ext
+	}
 	// harness API: bodyless v* functions of a package under test
 	if fn.Blocks == nil && fn.Pkg != nil && strings.HasPrefix(fn.Name(), "v") {
 		if ext, ok := harnessAPI[fn.Name()]; ok {
